@@ -32,6 +32,7 @@ import (
 	"sync/atomic"
 	"time"
 
+	"deps.dev/util/resolve/dep"
 	"deps.dev/util/semver"
 	scalibr "github.com/google/osv-scalibr"
 	"github.com/google/osv-scalibr/clients/datasource"
@@ -245,7 +246,8 @@ func showPatches(ps []result.Patch) string {
 	for _, p := range ps {
 		var us, fs, is []string
 		for _, u := range p.PackageUpdates {
-			us = append(us, fmt.Sprintf("%s:%s:%s:%s", hx.Hex(u.Name), hx.Hex(u.VersionFrom), hx.Hex(u.VersionTo), hx.B(u.Transitive)))
+			alias, _ := u.Type.GetAttr(dep.KnownAs)
+			us = append(us, fmt.Sprintf("%s:%s:%s:%s:%s", hx.Hex(u.Name), hx.Hex(u.VersionFrom), hx.Hex(u.VersionTo), hx.B(u.Transitive), hx.Hex(alias)))
 		}
 		for _, v := range p.Fixed {
 			fs = append(fs, hx.Hex(v.ID))
@@ -684,10 +686,11 @@ func twinUniverses() []*universe {
 	return us
 }
 
-// aliasUniverses: Compare-equal but DIFFERENT patches that a real manifest can produce: package x is required twice, once
+// aliasUniverses: patches that keys 1-5 of Patch.Compare cannot tell apart although they differ: package x is required twice, once
 // directly and once under the npm alias "xx" ("xx": "npm:x@1.0.0"); vulnerability A is reached through the first requirement,
-// B through the second. Both fixes read "x 1.0.0 -> 2.0.0" (same Name, VersionFrom, VersionTo) with different Fixed sets, and
-// Patch.Compare cannot tell them apart: CmpEqImpliesEq fails, CompactFunc keeps whichever was delivered first.
+// B through the second. Both fixes read "x 1.0.0 -> 2.0.0" (same Name, VersionFrom, VersionTo) with different Fixed sets and
+// requirement Types. Before fix <commit> Compare returned 0 for them and CompactFunc kept whichever was delivered first (former
+// known finding C16/compare-equal-distinct-patches); key 6 separates them, both survive in one order. Judged strictly.
 func aliasUniverses() []*universe {
 	base := []req{{Name: "x", Version: "1.0.0"}, {Name: "x", Version: "1.0.0", KnownAs: "xx"}}
 	var us []*universe
@@ -927,7 +930,7 @@ func (c *fakeClient) answer(o outcome) outcome {
 	}
 	rs := make([]req, len(o.Reqs))
 	for i, r := range o.Reqs {
-		rs[i] = req{Name: r.Name, Version: c.resolve(r.Name, r.Version)}
+		rs[i] = req{Name: r.Name, Version: c.resolve(r.Name, r.Version), KnownAs: r.KnownAs}
 	}
 	o.Reqs = rs
 	return o
